@@ -17,7 +17,7 @@ func seedHex(r *core.Rand) string {
 	return hex.EncodeToString(s[:])
 }
 
-var msgLens = []int{0, 1, 31, 32, 33, 64, 200, 1024}
+var msgLens = []int{0, 1, 31, 32, 33, 64, 65, 100, 128, 129, 200, 1024}
 
 func genMsgLen(r *core.Rand, allowBig bool) int {
 	switch r.Intn(12) {
